@@ -162,7 +162,10 @@ DumpWhy(e) == IF e.d.n = n /\ DumpModels(e.d) # mods
 (* (AppendClause calls made by the optimisation loop and blocking clauses of enumeration     *)
 (* strengthen it).  Every learned constraint must be a consequence of that set (C14, C06);   *)
 (* deriving the empty constraint is allowed only if no model satisfies the assumptions.      *)
-WbC(e) == [lits |-> e.lits, w |-> e.w, rel |-> ">=", rhs |-> e.d]
+(* a blocking clause of one literal is reported as its literals only (no weights, no degree): it is a clause *)
+WbC(e) == IF e.k = "block" /\ (e.d = 0 \/ Len(e.w) # Len(e.lits))
+          THEN [lits |-> e.lits, w |-> Ones(Len(e.lits)), rel |-> ">=", rhs |-> 1]
+          ELSE [lits |-> e.lits, w |-> e.w, rel |-> ">=", rhs |-> e.d]
 (* sv: for each variable 0 if unassigned, +level if true, -level if false, rebuilt from the     *)
 (* assign / prop / backtrack events (a tuple built with \o and Append: TLC evaluates those      *)
 (* strictly, nested function constructors would be re-evaluated lazily at every use).           *)
@@ -192,6 +195,16 @@ RECURSIVE Zeros(_)
 Zeros(k) == IF k = 0 THEN <<>> ELSE Append(Zeros(k - 1), 0)
 Signed(l, lvl) == IF l > 0 THEN lvl ELSE -lvl
 
+(* Model sets filtered by appended constraints are evaluated at once (TLCEval: a tower of lazy       *)
+(* filters would be re-evaluated at every use) and the fact clause below is applied, except in        *)
+(* enumerations, where one blocking clause per model makes both too expensive for nothing (the       *)
+(* facts asserted there are the blocking clauses themselves).                                        *)
+Eager == Ev.op \notin {"count", "enum"}
+(* the assumptions in force at position i of the events of a call: those of the latest "assume"      *)
+(* event (calls of Assume are reported with the next call), the assumptions of the history otherwise *)
+RECURSIVE WbAsm(_, _)
+WbAsm(wb, i) == IF i = 0 THEN Range(asm) ELSE IF wb[i].k = "assume" THEN Range(wb[i].lits) ELSE WbAsm(wb, i - 1)
+SatSet(m, S) == \A l \in S : LitTrue(m, l)
 (* the fold returns [why, sv]: the first rejected clause ("" if none) and the assignment at the end *)
 R(w, sv) == [why |-> w, sv |-> sv]
 RECURSIVE WbFold(_, _, _, _, _)
@@ -201,7 +214,7 @@ WbFold(wb, i, M, k, sv) ==
        IF e.k \in {"append", "block"}
        THEN IF MaxVar(e.lits) > k THEN R("", sv)   \* variable set grows: handled by the black-box layer only
             ELSE IF e.k = "block" /\ ~WatchOrderOK(e, sv) THEN R("block-watch-order", sv)
-            ELSE WbFold(wb, i + 1, {m \in M : SatC(m, WbC(e))}, k, sv)
+            ELSE WbFold(wb, i + 1, IF Eager THEN TLCEval({m \in M : SatC(m, WbC(e))}) ELSE {m \in M : SatC(m, WbC(e))}, k, sv)
        ELSE IF e.k \in {"learn", "learn-pb"}
        THEN IF \A m \in M : SatC(m, WbC(e)) THEN WbFold(wb, i + 1, M, k, sv)
             ELSE R("learned-not-entailed:" \o ToString(CHOOSE m \in M : ~SatC(m, WbC(e))), sv)
@@ -210,10 +223,12 @@ WbFold(wb, i, M, k, sv) ==
        ELSE IF e.k \in {"assign", "prop"} /\ Abs(e.lit) \in 1..k
        THEN IF sv[Abs(e.lit)] # 0 /\ sv[Abs(e.lit)] # Signed(e.lit, e.lvl)
             THEN R("mech:assigned-twice", sv)   \* (a repeated unit clause puts its literal on the trail twice: harmless, allowed)
-            ELSE IF e.k = "assign" /\ e.lvl = 1 /\ sv[Abs(e.lit)] = 0 /\ (\E m \in M : SatLits(m, asm) /\ ~LitTrue(m, e.lit))
-                 (* a literal asserted at the top level (a fact: a learned unit, a constraint found to be unit  *)
-                 (* when it is added) holds in every model of what the solver was given so far                *)
-                 THEN R("fact-not-entailed:" \o ToString(CHOOSE m \in M : SatLits(m, asm) /\ ~LitTrue(m, e.lit)), sv)
+            ELSE IF Eager /\ e.k = "assign" /\ e.lvl = 1 /\ sv[Abs(e.lit)] = 0 /\ e.lit \notin WbAsm(wb, i - 1)
+                    /\ (\E m \in M : SatSet(m, WbAsm(wb, i - 1)) /\ ~LitTrue(m, e.lit))
+                 (* a literal asserted at the top level that is not an assumption (a fact: a learned unit, a    *)
+                 (* constraint found to be unit when it is added) holds in every model of what the solver was   *)
+                 (* given so far that satisfies the assumptions in force                                        *)
+                 THEN R("fact-not-entailed:" \o ToString(CHOOSE m \in M : SatSet(m, WbAsm(wb, i - 1)) /\ ~LitTrue(m, e.lit)), sv)
             ELSE IF e.k = "prop" /\ InRange(e, k) /\ ~(\E x \in 1..Len(e.lits) : e.lits[x] = e.lit) THEN R("mech:reason-without-literal", sv)
             ELSE IF e.k = "prop" /\ InRange(e, k) /\ sv[Abs(e.lit)] = 0 /\ CoefOf(e, e.lit) <= SlackS(e, sv, Len(e.lits))
                  THEN R("mech:propagation-not-forced", sv)
